@@ -235,7 +235,8 @@ impl DecryptionKeyBuilder<'_> {
         // a decryption key must contain a uri and a method
         if self.method.is_none() {
             return Err(Error::missing_field("DecryptionKey", "method").to_string());
-        } else if self.uri.is_none() {
+        } else if self.uri.as_ref().map_or(true, |uri| uri.trim().is_empty()) {
+            // (an empty uri is rejected like a missing one, as it is when parsing)
             return Err(Error::missing_field("DecryptionKey", "uri").to_string());
         }
 
